@@ -21,6 +21,13 @@ package composite
 
 //@ func (*composite.Reconciler).Reconcile
 //@ props C05
+//@ ghost unpublished bool = false
+//@ let $xr = result composite.New
+//@ site (managed.ConnectionPublisher).UnpublishConnection(_, _, _, _)
+//@   update unpublished = err == nil
+//@ site (resource.Finalizer).RemoveFinalizer(_, _, $o)
+//@   assert [C08:xr-finalizer-only-when-deleted] $o == $xr && meta.WasDeleted($xr)
+//@   assert [C08:xr-finalizer-after-unpublish] unpublished
 //@ loop range res.Composed
 //@   invariant [C05:unsynced-collected] (exists j :: 0 <= j && j < done && !res.Composed[j].Synced) ==> len(unsynced) > 0
 //@   invariant [C05:unready-collected] (exists j :: 0 <= j && j < done && !res.Composed[j].Ready) ==> len(unready) > 0
